@@ -345,13 +345,42 @@ def clause_env(spec_root):
     import pmutt.constants as const
     from scipy.integrate import quad as _quad
     import pmutt as pm
+    _install_recorders()
     env = {'spec': spec, 'const': const, 'pm': pm, 'cell': _cell,
+           'ext_call': lambda name, k=-1: [c for c in _EXT_CALLS if c[0] == name][k][1],
            'integral': lambda f, a, b: _quad(f, a, b)[0], 'np': np, 'log': np.log, 'exp': np.exp,
            'sqrt': np.sqrt, 'pi': math.pi,
            'implies': lambda a, b: (not a) or b, 'eq': approx_eq,
            'at': lambda r, i: r[i] if hasattr(r, '__len__') else r,
            'isclose': lambda a, b, tol=1e-9: approx_eq(a, b, tol)}
     return env
+
+
+_EXT_CALLS = []
+_RECORDERS = []
+
+
+def _install_recorders():
+    """record what the code under check hands to external libraries
+    (native counterpart of the `ext_call` clause function)"""
+    if _RECORDERS:
+        return
+    _RECORDERS.append(True)
+    try:
+        import yaml
+        real_dump = yaml.dump
+
+        def dump(data=None, stream=None, **kw):
+            import copy as _c
+            try:
+                snap = _c.deepcopy(data)
+            except Exception:
+                snap = data
+            _EXT_CALLS.append(('yaml.dump', dict(kw, data=snap, args=[snap])))
+            return real_dump(data, stream, **kw)
+        yaml.dump = dump
+    except ImportError:
+        pass
 
 
 def summarize(v, depth=0):
@@ -385,6 +414,7 @@ def run_job(job):
     out = {}
     RTOL = job.get('rtol', 1e-9)
     _SHARED.clear()
+    del _EXT_CALLS[:]
     env = clause_env(job['verif_root'])
     try:
         args = {n: build(job['args'][n]) for n in job['order']}
